@@ -4,6 +4,7 @@
 #  (i) existing suite passes with the change, (ii) demo fails with it, (iii) demo passes without it;
 # then stores it under /verif/seeded/<Cxx>/ and runs the given checks against it in /repo.
 ID="$1"; FILTER="$2"; shift 2; PROPS="${*:-$ID}"
+NAME="${SEEDED_NAME:-$ID}"   # directory name under /verif/seeded (e.g. C01-r2 for a second-round change)
 WT=/tmp/wt/$ID; S=$WT/SEEDED
 export RUSTUP_TOOLCHAIN=1.88.0 CARGO_NET_OFFLINE=true
 cd "$WT" || exit 4
@@ -18,11 +19,11 @@ git checkout -q -- . ; git clean -fdq -e SEEDED -e target
 echo "SUITE(with change): $suite"
 echo "DEMO(with change): $with"
 echo "DEMO(without): $without"
-mkdir -p /verif/seeded/$ID && cp "$S/patch.diff" "$S/demo.diff" "$S/README.md" /verif/seeded/$ID/
+mkdir -p /verif/seeded/$NAME && cp "$S/patch.diff" "$S/demo.diff" "$S/README.md" /verif/seeded/$NAME/
 # run my checks against the change
 cd /verif
 [ -z "$(git -C /repo status --porcelain)" ] || { echo "/repo not clean"; exit 4; }
-git -C /repo apply /verif/seeded/$ID/patch.diff || { echo "patch does not apply to /repo"; exit 4; }
+git -C /repo apply /verif/seeded/$NAME/patch.diff || { echo "patch does not apply to /repo"; exit 4; }
 RES=""
 for p in $PROPS; do
   out=$(./check $p --tier quick 2>&1); rc=$?
@@ -31,10 +32,10 @@ for p in $PROPS; do
   echo "$out" | grep -vE "^\[C|^VIOLATION|^KNOWN" | head -2
 done
 git -C /repo checkout -- .
-python3 - "$ID" "$FILTER" "$suite" "$with" "$without" "$RES" <<'PY'
+python3 - "$NAME" "$FILTER" "$suite" "$with" "$without" "$RES" <<'PY'
 import json,sys
 id,flt,suite,w,wo,res=sys.argv[1:7]
-meta={"property":id,"demo_test_filter":flt,"confirmed":{"existing_suite_with_change":suite,"demo_with_change":w,"demo_without_change":wo},
+meta={"property":id[:3],"demo_test_filter":flt,"confirmed":{"existing_suite_with_change":suite,"demo_with_change":w,"demo_without_change":wo},
       "checks_run_against_it":res.strip().split(),"what_it_needs":"see README.md (written by the sub-agent that produced the change)"}
 json.dump(meta,open(f"/verif/seeded/{id}/meta.json","w"),indent=1)
 PY
